@@ -15,7 +15,7 @@ from decimal import Decimal
 import vlib
 
 MODULE = "Position"
-SCALES = ("none", "p6", "pm6", "q6", "qm6")
+SCALES = ("none", "p6", "pm6", "q6", "qm6", "qm9", "pm9")
 
 
 # ----------------------------------------------------------------------------- model checking
